@@ -85,3 +85,68 @@ Proof.
   destruct (Nat.leb (length all) room) eqn:L; rewrite RC; [reflexivity|]. cbn [andb].
   apply Nat.ltb_lt. apply Nat.leb_gt in L. exact L.
 Qed.
+
+(* ------------------------------------------------------------------ a replayed message is capped by a granted QoS *)
+Lemma firstn_In' {A} (l : list A) : forall n x, In x (firstn n l) -> In x l.
+Proof.
+  induction l as [|y l IH]; intros [|n] x H; cbn [firstn] in H; try destruct H.
+  - subst; left; reflexivity.
+  - right; exact (IH n x H).
+Qed.
+
+Lemma remove_first_In m l : forall l', remove_first m l = Some l' -> In m l /\ (forall y, In y l' -> In y l).
+Proof.
+  induction l as [|x l IH]; intros l'; cbn [remove_first]; [discriminate|].
+  destruct (message_eqb m x) eqn:E.
+  - intros H; injection H as <-. apply message_eqb_eq in E; subst x. split; [left; reflexivity|intros y Hy; right; exact Hy].
+  - destruct (remove_first m l) as [t|] eqn:R; [|discriminate]. intros H; injection H as <-.
+    destruct (IH t eq_refl) as [H1 H2]. split; [right; exact H1|].
+    intros y [->|Hy]; [left; reflexivity|right; apply H2; exact Hy].
+Qed.
+
+Lemma perm_b_In a : forall b x, perm_b a b = true -> In x a -> In x b.
+Proof.
+  induction a as [|y a IH]; intros b x H Hin; [destruct Hin|]. cbn [perm_b] in H.
+  destruct (remove_first y b) as [b'|] eqn:R; [|discriminate].
+  destruct (remove_first_In _ _ _ R) as [H1 H2]. destruct Hin as [->|Hin]; [exact H1|].
+  apply H2. exact (IH b' x H Hin).
+Qed.
+
+Lemma last_q_some f subs : In f (map fst subs) -> last_q f subs <> None.
+Proof.
+  induction subs as [|[f' q] subs IH]; cbn [map fst In last_q]; [intros []|].
+  intros [->|H].
+  - destruct (last_q f subs); [discriminate|]. rewrite bytes_eqb_refl. discriminate.
+  - specialize (IH H). destruct (last_q f subs); [discriminate|contradiction].
+Qed.
+
+(* every message a Subscribe replays comes from the retained map and matches a filter the session holds
+   afterwards: at dequeue it is capped by a granted QoS of a matching filter (it never leaves uncapped for
+   lack of a matching subscription) *)
+Theorem subscribe_replayed_match st c subs b k s :
+  session_of st c = Some (k, s) ->
+  let (r, st') := subscribe st c subs b in
+  r <> RBadOracle ->
+  forall s' m, get_session st' k = Some s' ->
+    In m (skipn (length (s_tq s)) (s_tq s')) ->
+    has_match (s_subs s') (m_topic m) = true /\ exists t, In (t, m) (st_retained st).
+Proof.
+  intros S. unfold subscribe. rewrite S.
+  destruct (negb (batches_ok _ b)) eqn:B; [intros H; exfalso; apply H; reflexivity|]. intros _.
+  apply negb_false_iff in B. intros s' m G Hin. rewrite get_put, skey_eqb_refl in G. injection G as <-.
+  cbn [s_tq s_subs] in *. rewrite skipn_app, Nat.sub_diag, skipn_all in Hin. cbn [skipn app] in Hin.
+  apply firstn_In' in Hin.
+  assert (X : exists f, In f (map fst subs) /\ In m (search_retained st f)).
+  { clear S. revert b B Hin. induction subs as [|[f q] subs IH]; intros [|g gs] B Hin; cbn [map batches_ok concat] in *; try discriminate.
+    - destruct Hin.
+    - apply andb_true_iff in B as [B1 B2]. apply in_app_iff in Hin as [Hin|Hin].
+      + exists f. split; [left; reflexivity|]. exact (perm_b_In _ _ _ B1 Hin).
+      + destruct (IH gs B2 Hin) as [f' [H1 H2]]. exists f'. split; [right; exact H1|exact H2]. }
+  destruct X as [f [Hf Hm]]. unfold search_retained in Hm. apply filter_In in Hm as [Hm1 Hm2].
+  split.
+  - pose proof (alookup_set_subs subs (s_subs s) f) as L. unfold sub_spec in L.
+    destruct (last_q f subs) as [q|] eqn:LQ; [|exfalso; exact (last_q_some f subs Hf LQ)].
+    apply (alookup_In bytes_eqb bytes_eqb_eq) in L.
+    apply existsb_exists. exists (f, q). split; [exact L|exact Hm2].
+  - apply in_map_iff in Hm1 as [[t m0] [E Hin0]]. cbn [snd] in E. subst m0. exists t; exact Hin0.
+Qed.
